@@ -150,6 +150,11 @@ struct Wider<T, std::enable_if_t<std::is_integral_v<T> && !std::is_same_v<T, boo
     using type = std::conditional_t<std::is_signed_v<T>, int64_t, uint64_t>;
 };
 template <>
+struct Wider<BasePtr, void>  // not wider, but another source type whose conversion is not a copy of the bits
+{
+    using type = Derived*;
+};
+template <>
 struct Wider<float, void>
 {
     using type = double;
@@ -161,6 +166,16 @@ struct MElem
     std::vector<std::vector<int64_t>> f;  // field -> items (plain fields have one item)
     bool operator==(const MElem& o) const { return f == o.f; }
 };
+
+// number of stored objects of the value type with the given name (type_name()) in a model element
+template <class Fields>
+size_t objects_of_type(const Fields& fields, const std::vector<std::vector<int64_t>>& f, const char* tname)
+{
+    size_t n = 0;
+    for (size_t k = 0; k < f.size(); ++k)
+        if (std::string(fields[k].tname) == tname) n += f[k].size();
+    return n;
+}
 
 inline bool values_match(const std::vector<int64_t>& expected, const std::vector<int64_t>& got)
 {
